@@ -1,0 +1,44 @@
+//go:build verif
+
+// Contracts for the deductive verifier under /verif (foxvc): client IP resolvers
+// (property C18). Comments only.
+
+package clientip
+
+//@ package clientip
+
+//@ -- Audit of the default range tables, decided for every IPv4 and IPv6 address by bit-vector
+//@ -- queries: each CIDR literal of the tables below must lie inside the union of the blocks that
+//@ -- the IANA special-purpose address registries (RFC 6890 and updates) list as not globally
+//@ -- reachable, plus multicast.  The tables are read from the initialisers in the source on every run.
+//@ audit nonglobal-tables props C18 : privateAndLocalRanges, privateRange, loopbackRanges, linkLocalRanges
+
+//@ nonglobal 0.0.0.0/8          -- RFC 1122 "this network"
+//@ nonglobal 10.0.0.0/8         -- RFC 1918
+//@ nonglobal 100.64.0.0/10      -- RFC 6598 shared address space
+//@ nonglobal 127.0.0.0/8        -- RFC 1122 loopback
+//@ nonglobal 169.254.0.0/16     -- RFC 3927 link local
+//@ nonglobal 172.16.0.0/12      -- RFC 1918
+//@ nonglobal 192.0.0.0/24       -- RFC 6890 IETF protocol assignments
+//@ nonglobal 192.0.2.0/24       -- RFC 5737 TEST-NET-1
+//@ nonglobal 192.88.99.0/24     -- RFC 7526 deprecated 6to4 relay anycast
+//@ nonglobal 192.168.0.0/16     -- RFC 1918
+//@ nonglobal 198.18.0.0/15      -- RFC 2544 benchmarking
+//@ nonglobal 198.51.100.0/24    -- RFC 5737 TEST-NET-2
+//@ nonglobal 203.0.113.0/24     -- RFC 5737 TEST-NET-3
+//@ nonglobal 224.0.0.0/4        -- RFC 5771 multicast
+//@ nonglobal 240.0.0.0/4        -- RFC 1112 reserved
+//@ nonglobal 255.255.255.255/32 -- RFC 919 limited broadcast
+//@ nonglobal ::/128             -- RFC 4291 unspecified
+//@ nonglobal ::1/128            -- RFC 4291 loopback
+//@ nonglobal ::ffff:0:0/96      -- RFC 4291 IPv4-mapped
+//@ nonglobal 64:ff9b:1::/48     -- RFC 8215 local-use translation
+//@ nonglobal 100::/64           -- RFC 6666 discard-only
+//@ nonglobal 2001::/23          -- RFC 2928 IETF protocol assignments (includes TEREDO 2001::/32 and benchmarking 2001:2::/48)
+//@ nonglobal 2001:db8::/32      -- RFC 3849 documentation
+//@ nonglobal 2002::/16          -- RFC 3056 6to4 (RFC 7526 deprecated anycast)
+//@ nonglobal 3fff::/20          -- RFC 9637 documentation
+//@ nonglobal 5f00::/16          -- RFC 9602 SRv6 SIDs
+//@ nonglobal fc00::/7           -- RFC 4193 unique local
+//@ nonglobal fe80::/10          -- RFC 4291 link-scoped unicast
+//@ nonglobal ff00::/8           -- RFC 4291 multicast
